@@ -137,6 +137,7 @@ Qed.
 Section WithTok.
   Variable qtok : Q -> str.
   Variable tokq : str -> option Q.
+  Variable reo : option (list (list Q)).
 
   Lemma q_of_jv_scalar v q : q_of_jv tokq v = Some q -> CS.is_scalar v = true.
   Proof. destruct v; try discriminate; reflexivity. Qed.
@@ -214,17 +215,26 @@ Section WithTok.
 
   (** ** The gate: accepted + abstractable = valid *)
 
+  (** a varying class of multiplicity one holds exactly one value (weaker than [nondegenerate], which excludes such
+      entries altogether) *)
+  Definition mult1_single (e : jext) : Prop :=
+    forall k c vs, In (k, (c, vs)) (entries e) -> c <> GConst -> mult_spec (dims (hdr_of e)) c = 1 -> length vs = 1.
+
+  Lemma nondegenerate_mult1_single e : nondegenerate e -> mult1_single e.
+  Proof. intros H k c vs Hin Hc Hm. exfalso. apply (H _ _ _ Hin Hc Hm). Qed.
+
   (** FULL STATEMENT (false): CM.check_valid c = Ok tt -> of_content c = Some e -> valid e.
       check_valid accepts a zero extent (every multiplicity is then 0 or unchecked) and does not count the
-      values of a key in a class of multiplicity one; see Props/C10link.v for the two witnesses. *)
+      values of a key in a class of multiplicity one; see Props/C10link.v for the witnesses. *)
   Theorem gate_valid_partial c e :
     CM.check_valid c = Ok tt -> of_content tokq c = Some e ->
-    Forall (fun n => 1 <= n) (shape (hdr_of e)) -> nondegenerate e -> valid e.
+    Forall (fun n => 1 <= n) (shape (hdr_of e)) -> mult1_single e -> valid e.
   Proof.
     intros Hck Hof Hp Hnd. destruct (of_content_reps c e Hof) as [o [-> [R [Hnodup [Hcok Hconst]]]]].
     pose proof (reps_wf_domain o e R Hp) as Hwf.
     apply (CPM.check_valid_iff_spec _ Hwf) in Hck.
-    apply (reps_valid o e R Hck Hp Hnodup Hcok Hconst Hnd).
+    apply (reps_valid_gen o e R Hck Hp Hnodup Hcok Hconst).
+    intros k cl vs Hin Hc _ Hm. apply (Hnd _ _ _ Hin Hc Hm).
   Qed.
 
   (** ** of_content after to_content *)
@@ -246,9 +256,9 @@ Section WithTok.
 
   Lemma class_entries_of_to e c :
     (forall k vs, In (k, (GConst, vs)) (entries e) -> length vs = 1) ->
-    class_entries_of (to_members qtok e) c = Some (if has_base (hdr_of e) (base_of c) then class_entries e c else []).
+    class_entries_of (to_members_r qtok reo e) c = Some (if has_base (hdr_of e) (base_of c) then class_entries e c else []).
   Proof.
-    intros Hconst. unfold class_entries_of. rewrite jassoc_base.
+    intros Hconst. unfold class_entries_of. rewrite jassoc_base_r.
     destruct (has_base (hdr_of e) (base_of c)); [|reflexivity].
     assert (Hsub : jassoc (name_of_sub (sub_of c))
                      [(name_of_sub (sub_of (first_sub (base_of c))), JObj (class_obj e (first_sub (base_of c))));
@@ -262,7 +272,7 @@ Section WithTok.
 
   Lemma all_entries_of_to e cs :
     (forall k vs, In (k, (GConst, vs)) (entries e) -> length vs = 1) ->
-    all_entries_of (to_members qtok e) cs = Some (stored_entries e cs).
+    all_entries_of (to_members_r qtok reo e) cs = Some (stored_entries e cs).
   Proof.
     intros Hconst. induction cs as [|c cs IH]; [reflexivity|]. cbn [all_entries_of].
     rewrite (class_entries_of_to e c Hconst), IH. reflexivity.
@@ -329,13 +339,13 @@ Section WithTok.
     unfold row_of_jv, row_jv. apply omap_map_id. intros q Hq. rewrite Forall_forall in H. apply (H q Hq).
   Qed.
 
-  Lemma has_key_base e b : PV.has_key (name_of_base b) (to_members qtok e) = has_base (hdr_of e) b.
-  Proof. unfold PV.has_key. rewrite jassoc_base. destruct (has_base (hdr_of e) b); reflexivity. Qed.
+  Lemma has_key_base e b : PV.has_key (name_of_base b) (to_members_r qtok reo e) = has_base (hdr_of e) b.
+  Proof. unfold PV.has_key. rewrite jassoc_base_r. destruct (has_base (hdr_of e) b); reflexivity. Qed.
 
   (** abstracting the content of a valid extension gives the extension back, as an unordered map *)
   Theorem of_to_content e :
     valid e -> aff_rt qtok tokq (hdr_of e) ->
-    exists e', of_content tokq (to_content qtok e) = Some e' /\ ext_equiv e e'.
+    exists e', of_content tokq (to_content_r qtok reo e) = Some e' /\ ext_equiv e e'.
   Proof.
     intros [Hh [Hnd Hent]] Hrt.
     assert (Hconst : forall k vs, In (k, (GConst, vs)) (entries e) -> length vs = 1).
@@ -347,7 +357,7 @@ Section WithTok.
     { intros x. unfold es. rewrite in_stored_entries. split; [tauto | intros Hx; split; [exact Hx | apply Hbase; exact Hx]]. }
     assert (Hnd' : NoDup (map fst es)) by (apply stored_entries_NoDup; [exact Hnd | apply all_classes_NoDup]).
     exists (mk_ext (hdr_of e) es). split.
-    - rewrite to_content_members. unfold of_content.
+    - rewrite to_content_members_r. unfold of_content.
       rewrite jassoc_shape, jassoc_affine, jassoc_slice_dim. unfold shape_jv, aff_jv.
       rewrite (omap_map_id nat_of_jv nat_jv (shape (hdr_of e)) (fun y _ => nat_of_jv_nat y)).
       rewrite (rows_rt _ Hrt), sdim_of_jv_sdim, (all_entries_of_to e all_classes Hconst).
@@ -358,5 +368,11 @@ Section WithTok.
       + symmetry. apply forallb_forall. intros [k [c vs]] Hx. cbn [fst snd]. apply Hes in Hx. apply (Hent _ _ _ Hx).
     - split; [reflexivity|]. intros k. unfold lookup_e. cbn [entries]. symmetry.
       apply assoc_ext_NoDup; [exact Hnd' | exact Hnd | exact Hes].
+  Qed.
+  Theorem reo_of_to_content e :
+    reo_rt qtok tokq reo -> reo_of_content tokq (to_content_r qtok reo e) = Some reo.
+  Proof.
+    intros Hrt. rewrite to_content_members_r. unfold reo_of_content. rewrite jassoc_reorient.
+    destruct reo as [m|]; [|reflexivity]. cbn [reo_jv aff_jv]. unfold aff_jv. rewrite (rows_rt m Hrt). reflexivity.
   Qed.
 End WithTok.
